@@ -350,6 +350,14 @@ Proof.
   apply fp_assign_from; [tgt|]. intros f Hf. exists i. split; [tgt | exact Hf].
 Qed.
 
+Lemma fp_ResizeRef st i n j idx st' :
+  step_new st (ResizeRef i n j idx) = Some st' -> footprint st (ResizeRef i n j idx) st'.
+Proof.
+  intro H. unfold step_new in H. destruct (elem_ref st j idx) as [v|] eqn:E.
+  - rewrite (resize_ref_is_resize _ _ _ _ _ _ E) in H. exact (fp_Resize st i n v st' H).
+  - cbn [step] in H. rewrite E in H. discriminate.
+Qed.
+
 Lemma footprint_step st o st' : step_new st o = Some st' -> footprint st o st'.
 Proof.
   destruct o.
@@ -373,6 +381,7 @@ Proof.
   - apply fp_Write.
   - apply fp_FromWrap.
   - apply fp_ResetWrap.
+  - apply fp_ResizeRef.
 Qed.
 
 (* ------------------------------------------------------------ exclusivity, as needed by the frame theorem *)
